@@ -299,6 +299,7 @@ def tagsOf (ttl : Nat) : Store → List Ev → List String → List String
         match get s r.workID with
         | none => "add-new" :: acc
         | some v =>
+          (if blk v.data + 2^63 ≤ blk r ∨ blk r + 2^63 ≤ blk v.data then ["blocks-2^63-apart"] else []) ++
           if expired ttl t v then
             -- the situation efb208c repaired: a dead, uncollected entry; lower-or-equal blocks used to be dropped
             (if blk v.data < blk r then "replace-dead" else "dead-entry-overridden") :: acc
@@ -378,6 +379,12 @@ def handle (input impl : Json) : R Reply := do
       (if allS.any (fun o => o.k == "padd" && o.ctx == "done") then ["pp-ctx-done"] else []) ++
       (if allS.any (fun o => o.k == "padd" && o.ctx == "expired") then ["pp-ctx-expired"] else []) ++
       (if allS.any (fun o => o.k == "padd" && o.ctx == "cancel" && decide (o.n < nElig o)) then ["pp-ctx-ends-mid-batch"] else []) ++
+      (if allS.any (fun o => (o.k == "padd" || o.k == "flow") &&
+          o.rs.any (fun i => match tab[i]? with | some r => eligibleB r && r.retryable | none => false))
+        then ["pp-eligible-retryable"] else []) ++
+      (if allS.any (fun o => (o.k == "padd" || o.k == "flow") &&
+          o.rs.any (fun i => match tab[i]? with | some r => eligibleB r && decide (r.reason ≠ 0) | none => false))
+        then ["pp-eligible-with-reason"] else []) ++
       (if allS.any (fun o => o.k == "flow") then ["flow"] else []) ++
       (if allS.any (fun o => o.k == "flow" && decide (o.delay > Gen.observationProcessLimitNs) && decide (nElig o > 0))
         then ["flow-answers-after-limit"] else [])
